@@ -166,7 +166,9 @@ def layer_b(ctx, n_cases):
                     jp.asarray(a), reverse=True)
     hdr = [str(n)] + [str(p) for p in parents] + [str(n)] + [str(int(v)) for v in a]
     lines.append(' '.join(['scanfwd'] + hdr)); expect.append([int(v) for v in np.asarray(fwd)]); what.append(('scan.tree', parents))
+    lines.append(' '.join(['scanlevels'] + hdr)); expect.append([int(v) for v in np.asarray(fwd)]); what.append(('scan.tree vs its level-grouped transcription', parents))
     lines.append(' '.join(['scanrev'] + hdr)); expect.append([int(round(float(v))) for v in np.asarray(rev)]); what.append(('scan.tree reverse', parents))
+    lines.append(' '.join(['scanlevelsrev'] + hdr)); expect.append([int(round(float(v))) for v in np.asarray(rev)]); what.append(('scan.tree reverse vs its level-grouped transcription', parents))
     nq = sum(Q_WIDTHS[t] for t in typs); nv = sum(QD_WIDTHS[t] for t in typs)
     q = rng.integers(0, 10, size=nq); qd = rng.integers(0, 10, size=nv)
     def f(typ, qs, qds):
@@ -192,6 +194,7 @@ def layer_b(ctx, n_cases):
       lines.append(' '.join(['scanfwd'] + hdr)); expect.append([int(v) for v in np.asarray(fwd)]); what.append(('scan.tree (exhaustive)', parents))
       lines.append(' '.join(['scanlevels'] + hdr)); expect.append([int(v) for v in np.asarray(fwd)]); what.append(('scan.tree vs its level-grouped transcription (exhaustive)', parents))
       lines.append(' '.join(['scanrev'] + hdr)); expect.append([int(round(float(v))) for v in np.asarray(rev)]); what.append(('scan.tree reverse (exhaustive)', parents))
+      lines.append(' '.join(['scanlevelsrev'] + hdr)); expect.append([int(round(float(v))) for v in np.asarray(rev)]); what.append(('scan.tree reverse vs its level-grouped transcription (exhaustive)', parents))
   out = C.run_driver('Driver/C01.lean', lines)
   dis = []
   for o, e, w in zip(out, expect, what):
